@@ -522,12 +522,53 @@ class Inliner:
         ast.fix_missing_locations(asg)
         return [asg, new_st]
 
+    def _comp_to_loop(self, st, cls_name, local_names):
+        """`T = [E for v in S if C]` whose element calls a statement-level helper: the comprehension is the loop
+        `T = []; for v in S: if C: T.append(E)` (same evaluation order), in which the helper can be expanded"""
+        if isinstance(st, ast.Assign) and len(st.targets) == 1 and isinstance(st.targets[0], ast.Name):
+            tname, val = st.targets[0].id, st.value
+        elif isinstance(st, ast.AnnAssign) and isinstance(st.target, ast.Name) and st.value is not None:
+            tname, val = st.target.id, st.value
+        else:
+            return None
+        if not isinstance(val, ast.ListComp) or len(val.generators) != 1 or val.generators[0].is_async:
+            return None
+        g = val.generators[0]
+        calls = [c for c in ast.walk(val.elt) if isinstance(c, ast.Call)]
+        hs = [self._target(c, cls_name, local_names) for c in calls]
+        if not any(h is not None and h.kind in ("straight", "tail") for h in hs):
+            return None
+        if any(isinstance(n, ast.Name) and n.id == tname for n in ast.walk(val)):
+            return None
+        tnames = [n.id for n in ast.walk(g.target) if isinstance(n, ast.Name)]
+        # the comprehension variable is private to the comprehension: keep it apart from the function's own locals
+        outside = {n.id for n in ast.walk(ast.Module(body=[x for x in self._cur_fn_body if x is not st], type_ignores=[])) if isinstance(n, ast.Name)} if getattr(self, "_cur_fn_body", None) else set()
+        self.counter += 1
+        ren = {t: f"_cv{self.counter}_{t}" for t in tnames if t in outside}
+        r = _Rename2(ren)
+        app = ast.Expr(value=ast.Call(func=ast.Attribute(value=ast.Name(id=tname, ctx=ast.Load()), attr="append", ctx=ast.Load()), args=[r.visit(_clone(val.elt))], keywords=[]))
+        body = [app]
+        if g.ifs:
+            test = r.visit(_clone(g.ifs[0])) if len(g.ifs) == 1 else ast.BoolOp(op=ast.And(), values=[r.visit(_clone(c)) for c in g.ifs])
+            body = [ast.If(test=test, body=[app], orelse=[])]
+        loop = ast.For(target=r.visit(_clone(g.target)), iter=_clone(g.iter), body=body, orelse=[])
+        init = ast.Assign(targets=[ast.Name(id=tname, ctx=ast.Store())], value=ast.List(elts=[], ctx=ast.Load()))
+        for x in (init, loop):
+            ast.copy_location(x, st)
+            ast.fix_missing_locations(x)
+        self.count += 1
+        return [init, loop]
+
     def run_body(self, stmts, cls_name, local_names, depth=0):
         out = []
         for st in stmts:
             if isinstance(st, (ast.FunctionDef, ast.AsyncFunctionDef)):
                 self.run_function(st, cls_name)
                 out.append(st)
+                continue
+            c2l = self._comp_to_loop(st, cls_name, local_names) if depth < 4 else None
+            if c2l is not None:
+                out.extend(self.run_body(c2l, cls_name, local_names, depth + 1))
                 continue
             if isinstance(st, ast.ClassDef):
                 self.run_class(st)
@@ -569,7 +610,9 @@ class Inliner:
         for n in ast.walk(fn):
             if isinstance(n, ast.Name) and isinstance(n.ctx, ast.Store):
                 local_names.add(n.id)
+        self._cur_fn_body = fn.body
         fn.body = self.run_body(fn.body, cls_name, local_names)
+        self._cur_fn_body = None
 
     def run_class(self, cls):
         new = []
@@ -900,6 +943,68 @@ def normalise_loops(tree):
     return n
 
 
+def normalise_count_loops(tree):
+    """`for v in itertools.count(a): BODY` (BODY without `continue` at its own level, no else) is
+    `v = a; while True: BODY; v += 1`: v takes the same values, and after a `break` it is the current one in both forms."""
+    n = 0
+    count_names = set()
+    mod_names = set()
+    for st in ast.walk(tree):
+        if isinstance(st, ast.ImportFrom) and st.module == "itertools":
+            for a in st.names:
+                if a.name == "count":
+                    count_names.add(a.asname or a.name)
+        elif isinstance(st, ast.Import):
+            for a in st.names:
+                if a.name == "itertools":
+                    mod_names.add(a.asname or a.name)
+    if not count_names and not mod_names:
+        return 0
+
+    def is_count(e):
+        if not isinstance(e, ast.Call) or e.keywords or len(e.args) > 1:
+            return False
+        f = e.func
+        return (isinstance(f, ast.Name) and f.id in count_names) or (isinstance(f, ast.Attribute) and f.attr == "count" and isinstance(f.value, ast.Name) and f.value.id in mod_names)
+
+    for node in ast.walk(tree):
+        for field in ("body", "orelse", "finalbody"):
+            stmts = getattr(node, field, None)
+            if not isinstance(stmts, list) or not stmts or not isinstance(stmts[0], ast.stmt):
+                continue
+            for i, st in enumerate(list(stmts)):
+                if not (isinstance(st, ast.For) and not st.orelse and isinstance(st.target, ast.Name) and is_count(st.iter)):
+                    continue
+                if _loop_level_continue(st.body) or any(isinstance(x, ast.Name) and x.id == st.target.id and isinstance(x.ctx, ast.Store) for b in st.body for x in ast.walk(b)):
+                    continue
+                start = st.iter.args[0] if st.iter.args else ast.Constant(value=0)
+                init = ast.Assign(targets=[ast.Name(id=st.target.id, ctx=ast.Store())], value=start)
+                step = ast.AugAssign(target=ast.Name(id=st.target.id, ctx=ast.Store()), op=ast.Add(), value=ast.Constant(value=1))
+                loop = ast.While(test=ast.Constant(value=True), body=list(st.body) + [step], orelse=[])
+                for x in (init, loop):
+                    ast.copy_location(x, st)
+                    ast.fix_missing_locations(x)
+                k = stmts.index(st)
+                stmts[k:k + 1] = [init, loop]
+                n += 1
+    return n
+
+
+def _loop_level_continue(stmts):
+    for s_ in stmts:
+        if isinstance(s_, ast.Continue):
+            return True
+        if isinstance(s_, (ast.For, ast.While, ast.FunctionDef, ast.AsyncFunctionDef, ast.ClassDef)):
+            continue
+        for field in ("body", "orelse", "finalbody"):
+            sub = getattr(s_, field, None)
+            if isinstance(sub, list) and sub and isinstance(sub[0], ast.stmt) and _loop_level_continue(sub):
+                return True
+        if isinstance(s_, ast.Try) and any(_loop_level_continue(h.body) for h in s_.handlers):
+            return True
+    return False
+
+
 def normalise_ifexp(tree):
     """`x = A if C else B` is the same statement as `if C: x = A` / `else: x = B`; likewise `return A if C else B`.
     The statement form gives every path-based rule one path per arm."""
@@ -965,9 +1070,32 @@ def _gen_candidate(fn, cls):
     if len(yields) != 1 or not isinstance(yields[0], ast.Yield) or yields[0].value is None:
         return None
     for n in ast.walk(fn):
-        if n is not fn and isinstance(n, (ast.Return, ast.Await, ast.Global, ast.Nonlocal, ast.FunctionDef, ast.AsyncFunctionDef, ast.ClassDef, ast.Lambda,
-                                          ast.Try, ast.With)):
+        if n is not fn and isinstance(n, (ast.Await, ast.Global, ast.Nonlocal, ast.FunctionDef, ast.AsyncFunctionDef, ast.ClassDef, ast.Lambda,
+                                          ast.With)):
             return None
+        if isinstance(n, ast.Try) and (n.finalbody or any(x is yields[0] for x in ast.walk(n))):
+            return None  # the consumer must not run inside the generator's handlers
+        if isinstance(n, ast.Return) and n.value is not None:
+            return None
+    # a bare `return` ends the generator; with the loop as the last statement that is leaving the loop - allowed only
+    # directly in the loop (through ifs), where it can be spelled `break`
+    def bare_returns_ok(stmts, top):
+        for s_ in stmts:
+            if isinstance(s_, ast.Return):
+                if not top:
+                    return False
+            elif isinstance(s_, (ast.For, ast.While)):
+                if any(isinstance(x, ast.Return) for x in ast.walk(s_)):
+                    return False
+            elif isinstance(s_, ast.If):
+                if not bare_returns_ok(s_.body, top) or not bare_returns_ok(s_.orelse, top):
+                    return False
+            elif isinstance(s_, ast.Try):
+                if not bare_returns_ok(s_.body, top) or not bare_returns_ok(s_.orelse, top) or not all(bare_returns_ok(h_.body, top) for h_ in s_.handlers):
+                    return False
+        return True
+    if any(isinstance(x, ast.Return) for s_ in body[:-1] for x in ast.walk(s_)) or not bare_returns_ok(body[-1].body, True):
+        return None
         if isinstance(n, ast.Call) and ((isinstance(n.func, ast.Name) and n.func.id == fn.name) or (isinstance(n.func, ast.Attribute) and n.func.attr == fn.name)):
             return None
 
@@ -1055,9 +1183,17 @@ class GenInliner:
                 if isinstance(s_, ast.Expr) and isinstance(s_.value, ast.Yield):
                     out.extend(consumer(s_.value.value, tag))
                     continue
+                if isinstance(s_, ast.Return):
+                    out.append(ast.Break())  # end of the generator = leaving its (last) loop
+                    continue
                 if isinstance(s_, ast.If):
                     s_.body = place(s_.body)
                     s_.orelse = place(s_.orelse)
+                elif isinstance(s_, ast.Try):
+                    s_.body = place(s_.body)
+                    s_.orelse = place(s_.orelse)
+                    for h_ in s_.handlers:
+                        h_.body = place(h_.body)
                 out.append(s_)
             return out
 
@@ -1298,7 +1434,8 @@ def normalise_program(trees):
     """trees: path -> ast.Module (mutated in place).  Returns {path: number of inlined call sites}."""
     reshaped = {}
     for path, tree in trees.items():
-        n_ = normalise_loops(tree)
+        n_ = normalise_count_loops(tree)
+        n_ += normalise_loops(tree)
         k_ = normalise_ifexp(tree)
         while k_:
             n_ += k_
@@ -1425,6 +1562,13 @@ def normalise_program(trees):
         ast.fix_missing_locations(tree)
         if total:
             stats[path] = total
+            # the expansions may themselves contain the shapes the reshaping passes normalise
+            normalise_count_loops(tree)
+            normalise_loops(tree)
+            while normalise_ifexp(tree):
+                pass
+            normalise_shortcircuit(tree)
+            ast.fix_missing_locations(tree)
     for path, n_ in reshaped.items():
         stats[path] = stats.get(path, 0) + n_
     return stats
